@@ -315,6 +315,13 @@ func checkC07(p *core.Program, r *core.Report) {
 					probs = append(probs, fmt.Sprintf("copied as a %d-dimensional value, expected %d", src.Depth, len(wantDims)))
 				} else {
 					for i, d := range src.Dims {
+						// a copy bounded by the length of its own source covers the whole source; ValidateShape (O7.1) makes
+						// that length the system's dimension
+						if dd := stripConv(d); dd.K == tf.KLen {
+							if _, isSrc := fieldPath(dd.Args[0], paramsT); isSrc {
+								continue
+							}
+						}
 						if f, ok := fieldOf(stripConv(d), psT); !ok || !sameDimField(ps, f, i, len(wantDims)) {
 							probs = append(probs, fmt.Sprintf("dimension %d of the copy is %s, not the system's %s", i, describe(d), wantDims[i]))
 						}
